@@ -259,6 +259,14 @@ int ILLsymboltab_getindex (
 	k = h->the_index;
 
 	*hindex = h->nametable[k].index;
+	if (*hindex < 0)
+	{
+		/* an entry without an item index (the objective's name in the table of
+		 * the rows, see ILLsymboltab_index_reset) names no item */
+		QSlog("Symbol %s has no index", name);
+		rval = 1;
+		ILL_CLEANUP;
+	}
 
 CLEANUP:
 
